@@ -280,12 +280,23 @@ def render_class(spec, future):
         lines.append("_p%d_%d = %s" % (i, j, render_field(fs, "attr.ib", future, True)))
     bases = ", ".join("K%d" % x for x in spec["bases"])
     kind = spec["kind"]
+    these_src = None
+    if kind != "plain" and spec["these"] is not None:
+        perm = spec.get("these_perm")
+        if perm:
+            # the _CountingAttr objects are created in the order [perm], the dict lists them in
+            # specification order: insertion order, not the creation counter, must decide
+            for j in perm:
+                lines.append("_t%d_%d = %s" % (i, j, render_field(spec["these"][j][1], "attr.ib", future, True)))
+            these_src = "{%s}" % ", ".join("%r: _t%d_%d" % (n, i, j) for j, (n, _) in enumerate(spec["these"]))
+        else:
+            these_src = "{%s}" % ", ".join("%r: %s" % (n, render_field(fs, "attr.ib", future, True))
+                                           for n, fs in spec["these"])
     if kind == "make_class":
         if spec["mc_list"]:
             arg = "[%s]" % ", ".join(repr(n) for n, _ in spec["these"])
         else:
-            arg = "{%s}" % ", ".join("%r: %s" % (n, render_field(fs, "attr.ib", future, True))
-                                     for n, fs in spec["these"])
+            arg = these_src
         kws = ["bases=(%s,)" % bases] if spec["bases"] else []
         kws += _deco_kwargs(spec, i)
         lines.append("K%d = attr.make_class(%r, %s%s)" % (i, cname, arg, "".join(", " + k for k in kws)))
@@ -293,8 +304,7 @@ def render_class(spec, future):
     if kind != "plain":
         kws = _deco_kwargs(spec, i)
         if spec["these"] is not None:
-            kws.insert(0, "these={%s}" % ", ".join(
-                "%r: %s" % (n, render_field(fs, "attr.ib", future, True)) for n, fs in spec["these"]))
+            kws.insert(0, "these=%s" % these_src)
         if kind == "define":
             if spec["auto"] != "infer":
                 kws.append("auto_attribs=%s" % (spec["auto"] == "true"))
@@ -387,7 +397,12 @@ def enc_class(spec, mro, future):
             these = [(n, "(CA %d (ib None DNothing true None false None))" % next(counter))
                      for n, _ in spec["these"]]
         else:
-            these = [(n, "(CA %d %s)" % (next(counter), enc_ib(fs, future))) for n, fs in spec["these"]]
+            perm = spec.get("these_perm") or list(range(len(spec["these"])))
+            base = next(counter)
+            for _ in perm:
+                next(counter)
+            cnt = {j: base + pos for pos, j in enumerate(perm)}
+            these = [(n, "(CA %d %s)" % (cnt[j], enc_ib(fs, future))) for j, (n, fs) in enumerate(spec["these"])]
     stmts = []
     is_define = kind == "define"
     for st in spec["body"]:
@@ -525,6 +540,21 @@ def run_specs(specs, pairs, future):
             cls_terms.append(enc_class(spec, mro, future))
             obs_terms.append(enc_obs(ob))
             seen.append(ob)
+        # earlier classes must not change when later ones are created (Attribute objects are
+        # copied, never updated in place): observe every class again at the end
+        for k, spec in enumerate(specs):
+            cls = env.classes.get(spec["id"])
+            if cls is None or "err" in seen[k]:
+                continue
+            again = observe_class(cls, spec["kind"] != "plain")
+            if again != seen[k]:
+                again["changed_later"] = True
+                if "match_args" in again:
+                    again["match_args"] = ["?changed after later class statements"] + again["match_args"]
+                else:
+                    again["names"] = ["?changed after later class statements"] + (again["names"] or [])
+                seen[k] = again
+                obs_terms[k] = enc_obs(again)
         eqs = []
         for (x, y) in pairs:
             if x in env.classes and y in env.classes:
@@ -677,6 +707,14 @@ def gen_ft(rng, policy, vtags):
     return [k]
 
 
+def _perm(rng, n):
+    if n < 2 or rng.random() < 0.5:
+        return None
+    p = list(range(n))
+    rng.shuffle(p)
+    return p
+
+
 def gen_class(rng, i, env, policy, vtags, force=None):
     """Spec of class statement [i]; bases are chosen among the classes bound in [env]."""
     alive = sorted(env.classes)
@@ -717,10 +755,12 @@ def gen_class(rng, i, env, policy, vtags, force=None):
         spec["slots"] = False
         spec["mc_list"] = rng.random() < 0.3 and policy != "alldefault"
         spec["these"] = [[n, fs] for n, fs in zip(names, fields)]
+        spec["these_perm"] = _perm(rng, len(names))
         return spec
     style = rng.choices(["these", "counter", "auto"], [2, 5, 5] if kind == "attrs" else [1, 0, 6])[0]
     if style == "these":
         spec["these"] = [[n, fs] for n, fs in zip(names, fields)]
+        spec["these_perm"] = _perm(rng, len(names))
         if any(n.startswith("__") for n in names):
             # a private name in __slots__ is mangled by type(): slotted subclasses then fail with
             # AttributeError in _create_slots_class - a slots matter (C08), not field collection
